@@ -89,7 +89,6 @@ package cgroup
 //@   ensures result.1 == nil ==> result.0 != nil && !cg_existing(result.0)
 //@   loop 0: invariant 0 <= try && try < 10000
 
-
 //@ global pkg/cgroup.ErrNotInitialized props C20: invariant ErrNotInitialized != nil
 
 // ---- units table (C20): which control file each reading comes from / each limit goes to, and the scaling ----
